@@ -11,6 +11,8 @@ OBLIGATIONS = [
     "KafVerif.C36.discovery_offsets_sound",
     "KafVerif.C36.scan_sound",
     "KafVerif.C36.overlap_unsound",
+    "KafVerif.C36.listing_sound",
+    "KafVerif.C36.select_over_listing",
 ]
 BUILDS = {"h": ("sql", "./cmd/verif_c36", ["C36"])}
 TECHNIQUE = ("Lean 4 refinement proof (record loop of handleSelect = direct filtering) + differential correspondence through "
@@ -21,12 +23,14 @@ LEVEL_TEXT = ("proof: select_eq_direct — for every segment list whose present 
               "the filters/limit/tail/order applied directly to all records of the topic's segments; skip_sound — a dropped "
               "segment holds no matching record; discovery_offsets_sound / scan_sound — MinOffset = base, MaxOffset = next "
               "base - 1 and the .kfst footer are sound for logs whose offsets lie in [base, next base); overlap_unsound — "
-              "the cross-reference to C02. Tie: generated segment sets x queries through the real handleSelect (DataRow "
+              "the cross-reference to C02; listing_sound / select_over_listing — for every well-formed S3 object set (distinct "
+              "bases per partition, offsets in [base, any later base)) every reference the modelled ListCompleted returns "
+              "(sort, next-segment lookup, footer enrichment, with or without the time index) has sound statistics, hence a "
+              "SELECT over the real listing equals direct filtering. Tie: generated segment sets x queries through the real handleSelect (DataRow "
               "messages decoded) and, for S3 object sets, through the real s3Lister.ListCompleted, TimeIndexBuilder.Build and "
               "timeIndexReader over an in-process S3 endpoint; rows and listed statistics are diffed with the model and the "
               "rows are checked against the Lean `direct` specification.")
-LEVEL_NOTE = ("The listing-level function (sort, next-segment lookup, footer enrichment) is modelled and validated by "
-              "correspondence; its proved core is the per-partition offsetStats and scanSegment. sort.Slice is unstable: rows with "
+LEVEL_NOTE = ("sort.Slice is unstable: rows with "
               "equal _ts are compared as a multiset (the last tie group of a cut result by size). Aggregates, joins, LAST (wall "
               "clock) and the manifest lister are outside this check. buildRowValues is not modelled (a row is identified by "
               "segment, partition, offset, timestamp).")
